@@ -365,6 +365,11 @@ def run(ctx: core.Ctx, only=None) -> core.Result:
         cases = [o.get('input', o) for o in only]
     else:
         cases = core.corpus_cases('C09') + [gen_case(ctx.rng) for _ in range(ctx.scale(24, 250))]
+        for k_, c_ in enumerate(cases):       # failing models / tightened domains in a fixed share of every run
+            if 'nin' in c_ and k_ % 4 == 0:
+                c_['failing'] = True
+            if 'nin' in c_ and k_ % 4 == 1:
+                c_['shrink'] = True
     if only is None:
         cases = cases + [{'latent': ctx.rng.randrange(10 ** 6)} for _ in range(ctx.scale(4, 30))]
     for case in cases:
